@@ -72,7 +72,7 @@ EntryPoints(p) == {EpOf(k) : k \in EntryPointKinds(p)}
 ElabMethod(m, code) ==
     [name |-> Str(m.name), name_c |-> m.name, kind |-> m.kind, args |-> m.args, outcome |-> m.outcome,
      code |-> code, variant |-> Str(Variant(m.name)), wire |-> Str(Wire(m.name)),
-     near |-> Str(Near(m.name)), shape_name |-> IsShapeName(m.name)]
+     near |-> Str(Near(m.name)), shape_name |-> IsShapeName(m.name), resp |-> m.resp, explicit |-> m.explicit]
 ElabPart(part, base) ==
     [id |-> part.id,
      methods |-> [j \in 1..Len(part.methods) |-> ElabMethod(part.methods[j], base + j)],
@@ -93,6 +93,11 @@ EListed(part, k, key) == \E x \in 1..Len(part.lists[k]) : part.lists[k][x] = key
 EAllMethods(q) == UNION {Range(q.parts[i].methods) : i \in 1..Len(q.parts)}
 EWireUniverse(q) == {m.wire : m \in {x \in EAllMethods(q) : x.kind \in EnumKinds}}
 EArgUniverse(q) == UNION {{m.args[i].n : i \in 1..Len(m.args)} : m \in EAllMethods(q)}
+
+(* ---- query response metadata (C16) -------------------------------------- *)
+(* the table exported for schema generation: wire name of each query -> declared response type *)
+EResponses(part) == {<<m.wire, m.resp>> : m \in Range(EMethodsOf(part, "query"))}
+EContractResponses(q) == UNION {EResponses(q.parts[i]) : i \in 1..Len(q.parts)}
 
 (* ---- JSON shape of messages (C01) -------------------------------------- *)
 (* tagged JSON values (DESIGN 5.3): objects are [t |-> "o", f |-> <<[k, v], ...>>] *)
